@@ -110,7 +110,9 @@ CLAIMS = {
              "value() on the support (block norms solved as unknowns and checked against their "
              "radicands), coordinate-wise optimality of zeros, non-negativity, zero block exactly "
              "within stepsize * slope of value at 0. prox_SCAD: the returned candidate is "
-             "stationary on every region. Global optimality (beyond stationarity) of the closed "
+             "stationary on every region. SLOPE.prox_vec: at the output no coordinate, tied-cluster or "
+             "top-k sign direction decreases the prox objective built from SLOPE.value() (necessary "
+             "condition at witnesses). Weighted penalties with a zero weight stay constrained. Global optimality (beyond stationarity) of the closed "
              "forms prox_SCAD, prox_05, prox_2_3, prox_log_sum, prox_block_2_05, prox_SLOPE is "
              "not claimed.",
         design_ref="DESIGN.md §3.5 R-PROXFOC, §3.6 R-PROXFOC-BLOCK, §4 C07",
